@@ -4,6 +4,7 @@ import Percival.Proofs.SeqMap
 import Percival.Proofs.MPool
 import Percival.Proofs.DsStep
 import Percival.Proofs.DsRun
+import Percival.Proofs.DsAns
 /-!
 # C12 — elastic array/queue, sequential pointer map and object pool refine their abstract models
 
@@ -554,5 +555,42 @@ theorem exec_mp_run_refines (ops : List Op) (s : DsStep.S) (base : Int) (hfam : 
   mp_runOps_refines ops s base hfam h
 
 example : MPool.R ({} : DsStep.S).mp ({} : DsStep.S).m ({} : DsStep.S).inUse 0 := MPool.init_R 4 _
+
+/-! ## The monitor reads what the model prints: `Out.ans` is read ∘ print
+
+`Driver/Ds.render o` is the tokens `Ds.l1Toks o` joined by single spaces, then ` | ` and the L2 part (by definition);
+`Driver/Dsmon.parseAns` is the reader `pmodel dsmon` applies to the tokens of the part before ` | `.
+`Proofs/DsAns.lean`: number printing and reading (`Nat.repr` / `Int.repr` / `String.toNat?` / `String.toInt?`), hex
+printing and reading, the `key=value` and `;` splitting — everything between the typed output and the token list. -/
+
+/-- **For every typed output `o` of the model, reading the L1 tokens it prints gives `o.ans`** — the `Ans` that
+`monitor_accepts_model` / `monitor_accepts_model_run` feed to the monitor — and cutting the L1 part of the printed line
+at the spaces gives back exactly these tokens (no token contains a space).  Not covered: that `Driver/Loop.loopMon`
+cuts the line with `String.splitOn " "` (a different splitting function than the `String.split ' '` of the statement)
+and that `tools/vlib.py` cuts at ` | `; `KAT/DsAns.lean` tests these on an output of every shape. -/
+theorem monitor_reads_printed_answer (o : Out) :
+    Driver.Dsmon.parseAns (Driver.Ds.l1Toks o) = o.ans ∧
+    Driver.Dsmon.splitCh ' ' (" ".intercalate (Driver.Ds.l1Toks o)) = Driver.Ds.l1Toks o ∧
+    Driver.Ds.render o =
+      " ".intercalate (Driver.Ds.l1Toks o) ++ (match Driver.Ds.l2Str o with | some s => " | " ++ s | none => "") :=
+  ⟨DsAns.parseAns_l1Toks o, DsAns.split_l1 o, rfl⟩
+
+/-- the tokens of a real line: `ok sz=3 al=4 rf=0 n=1 out=0102ff`, and a queue dump with an unreadable record -/
+example : Driver.Ds.l1Toks (.ea .ok 3 4 0 (some (1, [1, 2, 255])) { live := 3, req := [24, 12] }) =
+    ["ok", "sz=3", "al=4", "rf=0", "n=1", "out=0102ff"] := by decide +kernel
+example : Driver.Ds.l1Toks (.eq .ok 2 0 (.recs [some [1, 2], none]) { off := 1, sz := 6, al := 8, c := { live := 3, req := [] } }) =
+    ["ok", "len=2", "rf=0", "recs=0102;?"] := by decide +kernel
+
+/-- **Every case, at the level of printed tokens**: `monitor_accepts_model_run` with the answers read back from the
+tokens the model prints. -/
+theorem monitor_accepts_printed_run (ops : List Op) (hok : ∀ op ∈ ops, OpOk op)
+    (hlen : (ops.length : Int) ≤ SeqMap.INT64_MAX) :
+    monRun {} (ops.zip ((runOps {} ops).2.map fun o => Driver.Dsmon.parseAns (Driver.Ds.l1Toks o))) =
+      List.replicate ops.length none := by
+  have h : (fun o => Driver.Dsmon.parseAns (Driver.Ds.l1Toks o)) = Out.ans := funext DsAns.parseAns_l1Toks
+  rw [h]
+  exact monitor_accepts_model_run ops hok hlen
+
+example : ∀ op ∈ demoOps, OpOk op := by decide
 
 end Percival.C12
